@@ -182,17 +182,18 @@ def _replay_fd():
 
     raw = bytearray(b" " * 720)
     raw[0:12] = (1).to_bytes(4, "big") + bytes([50, 192, 18, 18]) + (720).to_bytes(4, "big")
-    raw[180:186] = b"   123"
-    raw[186:192] = b"  4567"
-    raw[236:244] = b"     123"
-    raw[248:256] = b"      89"
+    # every column of the counts carries a digit: a column moved between neighbouring fields changes a value
+    raw[180:186] = b"123456"
+    raw[186:192] = b"987654"
+    raw[236:244] = b"12345678"
+    raw[248:256] = b"87654321"
     raw[428:432] = b"IU2 "
     failed = []
     try:
         h = file_descriptor_record.parse(bytes(raw))
         got = (h.number_of_sar_data_records, h.sar_data_record_length, h.sar_related_data_in_the_record.number_of_lines_per_dataset,
                h.sar_related_data_in_the_record.number_of_data_groups_per_line, h.prefix_suffix_data_locators.sar_data_format_type_code)
-        if got != (123, 4567, 123, 89, "IU2"):
+        if got != (123456, 987654, 12345678, 87654321, "IU2"):
             failed.append(repr(got))
     except Exception as e:  # noqa: BLE001
         failed.append(type(e).__name__)
